@@ -84,6 +84,7 @@ type Call struct {
 	Kind  string `json:"kind"`          // fault injected (KindOK = none)
 	Off   int64  `json:"off,omitempty"` // byte count k / offset o of the fault
 	Abs   bool   `json:"abs,omitempty"` // Off is an absolute file offset behind the LTX header (PageArea schedules)
+	Carry bool   `json:"carry,omitempty"` // the failing Read hands out its bytes together with the error / EOF
 	Err   string `json:"err,omitempty"` // error returned to litestream ("" = nil)
 }
 
@@ -257,6 +258,10 @@ func (p *Proxy) pick(op string, level int, min, max ltx.TXID, kinds ...string) (
 	for _, f := range p.sticky {
 		if f.op == op && f.level == level {
 			c.Kind, stuck = f.kind, true
+			if op == OpOpen && (c.Kind == KindMidStream || c.Kind == KindEarlyEOF) && p.rng.Intn(2) == 0 {
+				c.Carry = true
+				p.faults[op+":bytes-with-error"]++
+			}
 			p.faults[op+":"+c.Kind]++
 			break
 		}
@@ -366,6 +371,16 @@ type faultReader struct {
 }
 
 func (f *faultReader) Read(b []byte) (int, error) {
+	if f.c.Carry && f.n < f.limit && int64(len(b)) >= f.limit-f.n {
+		// last healthy bytes and the fault in one call
+		n, err := f.rc.Read(b[:f.limit-f.n])
+		f.n += int64(n)
+		if err != nil || f.n < f.limit {
+			return n, err
+		}
+		_, ferr := f.Read(nil)
+		return n, ferr
+	}
 	if f.n >= f.limit {
 		if !f.fired {
 			f.fired = true
